@@ -164,3 +164,82 @@ def check_domain(p, folder, fn: FuncInfo, var: str, env=None, depth=0) -> Domain
             rejected_total = rejected_total.union(cur)
     res.accepted = rejected_total.complement()
     return res
+
+
+# ---------------------------------------------------------------------------------------------------------------------------
+# The same question decided on abstract executions, for check functions whose tests are reached through objects, tables or
+# helpers the path reduction above does not follow (a range object with a .check method, a per-width field helper...).
+#
+# A check function touches its argument only through isinstance() and comparisons with constants, so its outcome is constant
+# between two consecutive thresholds.  The thresholds used: every integer literal of the package modules that hold checks and
+# specs (and each +-1), the powers of two up to 2**32 (+-1), the limits of the documented domain when given.  The function is
+# interpreted on each of them with a concrete argument; a non-integral number, a string and None decide the type test.
+
+_NON_INTS = (1.5, 'x', None)
+
+
+def package_int_literals(p, prefixes=('mido.messages', 'mido.midifiles')):
+    cache = getattr(p, '_int_literals', None)
+    if cache is None:
+        vals = set()
+        for m in p.modules.values():
+            if m.name.startswith(prefixes):
+                for n in ast.walk(m.tree):
+                    if isinstance(n, ast.Constant) and type(n.value) is int and abs(n.value) < 2 ** 40:
+                        vals.add(n.value)
+        cache = p._int_literals = frozenset(vals)
+    return cache
+
+
+def probe_points(p, extra=()):
+    pts = {-(2 ** 33), 2 ** 33}
+    for c in list(package_int_literals(p)) + [2 ** k for k in range(0, 33)] + [-(2 ** k) for k in range(0, 33)] + list(extra):
+        pts.update((c - 1, c, c + 1, -c - 1, -c, -c + 1))
+    return sorted(pts)
+
+
+def semantic_domain(ctx, call, extra=()):
+    """DomainResult of a check, `call(interp, value)` applying it abstractly to one concrete value."""
+    from .absint import AbsInt
+    res = DomainResult()
+    pts = probe_points(ctx.p, extra)
+    kinds = []
+    for v in pts:
+        ai = AbsInt(ctx.f)
+        outs = ai.explore(lambda: call(ai, v))
+        if len(outs) != 1:
+            raise Undecidable(f'the check has {len(outs)} outcomes for the value {v}')
+        o = outs[0]
+        kinds.append('return' if o.kind == 'return' else o.exc)
+        for q in ai.inlined:
+            ctx.functions.add(q)
+    acc = IntSet.empty()
+    rej = {}
+    for i, (v, k) in enumerate(zip(pts, kinds)):
+        lo = float('-inf') if i == 0 else v
+        hi = float('inf') if i == len(pts) - 1 else pts[i + 1] - 1
+        piece = IntSet([(lo, hi)])
+        if k == 'return':
+            acc = acc.union(piece)
+        else:
+            rej[k] = rej.get(k, IntSet.empty()).union(piece)
+    res.accepted = acc
+    res.rejected = rej
+    res.paths = len(pts)
+    bad = []
+    for v in _NON_INTS:
+        ai = AbsInt(ctx.f)
+        outs = ai.explore(lambda: call(ai, v))
+        bad.append([('return' if o.kind == 'return' else o.exc) for o in outs])
+    if all(b == ['TypeError'] for b in bad):
+        res.type_test = 'Integral'
+        ai = AbsInt(ctx.f)
+        far = ai.explore(lambda: call(ai, 1e12))      # far outside every range and not an integer: which complaint comes first?
+        res.type_test_first = [('return' if o.kind == 'return' else o.exc) for o in far] == ['TypeError']
+    res.notes.append(f'decided on {len(pts)} threshold values by abstract execution')
+    return res
+
+
+def looks_undecided(r):
+    """The path reduction found no test at all: the tests sit somewhere it did not look."""
+    return r is None or (r.accepted == IntSet.all() and not r.rejected and r.type_test is None)
